@@ -1491,8 +1491,13 @@ class LuaFormatterWriter(LuaASTEchoWriter):
             br'\n *--',
             b'\n' + b' ' * self._indent_mult * self._indent + b'--',
             spaces)
+        spaces = re.sub(
+            br'\n *//',
+            b'\n' + b' ' * self._indent_mult * self._indent + b'//',
+            spaces)
         if start_pos == 0:
             spaces = re.sub(br'^ *--', b'--', spaces)
+            spaces = re.sub(br'^ *//', b'//', spaces)
 
         # If next non-space is on its own line, indent it at the indent level.
         spaces = re.sub(
